@@ -42,7 +42,7 @@ def main(argv):
         dirs = sorted(glob.glob(os.path.join(VERIF, "seeded", "*")))
     rows = []
     for d in dirs:
-        d = d.rstrip("/")
+        d = os.path.abspath(d.rstrip("/"))
         meta = json.load(open(os.path.join(d, "meta.json")))
         prop = meta["property"]
         scratch = f"/dev/shm/seeded_{os.path.basename(d)}_{os.getpid()}"
@@ -59,6 +59,7 @@ def main(argv):
             if not row["applies"]:
                 row["error"] = (p.stdout + p.stderr)[-300:]
                 rows.append(row)
+                print(json.dumps(row))
                 continue
             if not skip_tests:
                 t = sh([PY, "-m", "pytest", "-q", "-p", "no:cacheprovider", "tests/", "--deselect",
@@ -93,7 +94,7 @@ def main(argv):
         rows.append(row)
         print(json.dumps(row))
         sys.stdout.flush()
-    out = os.path.join(VERIF, "out", f"seeded_results_{tier}.json")
+    out = os.path.join(VERIF, "out", f"seeded_results_{tier}_{len(rows)}.json")
     os.makedirs(os.path.dirname(out), exist_ok=True)
     json.dump(rows, open(out, "w"), indent=1)
     n = sum(1 for r in rows if r.get("caught_by_own_check"))
